@@ -89,6 +89,7 @@ fn main() {
     panicx::install_hook();
     let cmd = args[0].as_str();
     let code = match cmd {
+        "worker" => props::c04::worker_main(),
         "gen" => {
             debug_gen(&ctx, rest.iter().any(|x| x == "--wild"));
             0
